@@ -38,6 +38,7 @@ type Clause struct {
 	Line  int
 	File  string
 	Props []string
+	Uses  []string
 }
 
 type FuncContract struct {
@@ -150,6 +151,12 @@ func (cs *Contracts) parseFile(path, pkgPath string) error {
 			if strings.HasPrefix(text, "[") {
 				if j := strings.Index(text, "]"); j > 0 {
 					c.Label = text[1:j]
+					// [label using lemma1 lemma2]: of the step clauses of the loop only the named ones are offered as
+					// lemmas when this clause is proved (fewer hypotheses: faster, more stable proofs)
+					if k := strings.Index(c.Label, " using "); k > 0 {
+						c.Uses = strings.Fields(c.Label[k+7:])
+						c.Label = strings.TrimSpace(c.Label[:k])
+					}
 					text = strings.TrimSpace(text[j+1:])
 					c.Text = text
 				}
